@@ -16,7 +16,8 @@ B3 == <<PB("ctx"), PB("scope"), PB("prov")>>
 
 R(id, life, slot, var, shape, po, params) ==
     [id |-> id, life |-> life, slot |-> slot, slot2 |-> 0, var |-> var, shape |-> shape, po |-> po,
-     name |-> N, group |-> N, as |-> <<>>, params |-> params]
+     name |-> N, group |-> N, as |-> <<>>, params |-> params, kind |-> ""]
+Kinded(r, k) == [r EXCEPT !.kind = k]
 Named(r)    == [r EXCEPT !.name = "k"]
 Grouped(r)  == [r EXCEPT !.group = "g"]
 As(r, is)   == [r EXCEPT !.as = is]
@@ -129,8 +130,32 @@ CaptiveGroup == C("captivegroup", <<Grouped(R("r1", SC, 0, "a", "ctorerr", FALSE
                                     R("r2", TR, 1, "a", "ctorerr", TRUE, <<PG("S0")>>)>>)
 MissingDep == C("missing", <<R("r1", SC, 0, "a", "ctorerr", FALSE, <<P("S1")>>)>>)
 
+\* function-value kinds that share code: two registrations of the same slot type (unkeyed / named) and
+\* one of another type, all realised as closures of one factory / method values / generic
+\* instantiations / reflect.MakeFunc functions
+KindCfg(kd) == C("kind-" \o kd, <<Kinded(R("r1", SG, 0, "a", "ctorerr", FALSE, <<>>), kd),
+                                   Kinded(Named(R("r2", SC, 0, "b", "ctorerr", FALSE, <<>>)), kd),
+                                   Kinded(R("r3", TR, 1, "a", "ctorerr", FALSE, <<>>), kd),
+                                   Kinded(Named(R("r4", SG, 1, "b", "ctorerr", FALSE, <<>>)), kd)>>)
+KindCfgs == {KindCfg(kd) : kd \in {"closure", "method", "generic", "makefunc"}}
+CfgKinds == KindCfgs
+
+\* result object with a group field; multiple returns combined with Name / Group
+OutKG == C("outkg", <<Two(R("r1", SC, 0, "a", "outkg", FALSE, <<>>), 1),
+                      R("r2", SC, 2, "a", "ctorerr", TRUE, <<P("S0"), PG("S1")>>)>>)
+OutKGSing == C("outkgsing", <<Two(R("r1", SG, 0, "a", "outkg", FALSE, <<>>), 1),
+                              R("r2", TR, 2, "a", "ctorerr", TRUE, <<P("S0"), PG("S1")>>)>>)
+OutKGTr == C("outkgtr", <<Two(R("r1", TR, 0, "a", "outkg", FALSE, <<>>), 1)>>)
+MultiNamed == C("multinamed", <<Named(Two(R("r1", SG, 0, "a", "multi", FALSE, <<>>), 1)),
+                                R("r2", SC, 2, "a", "ctorerr", TRUE, <<PK("S0"), P("S1")>>)>>)
+MultiNamedSc == C("multinamedsc", <<Named(Two(R("r1", SC, 0, "a", "multierr", FALSE, <<>>), 1))>>)
+MultiGrouped == C("multigrouped", <<Grouped(Two(R("r1", SG, 0, "a", "multi", FALSE, <<>>), 1)),
+                                    R("r2", SC, 2, "a", "ctorerr", TRUE, <<PG("S0"), PG("S1")>>)>>)
+MultiGroupedSc == C("multigroupedsc", <<Grouped(Two(R("r1", SC, 0, "a", "multierr", FALSE, <<>>), 1))>>)
+CfgForms == {OutKG, OutKGSing, OutKGTr, MultiNamed, MultiNamedSc, MultiGrouped, MultiGroupedSc}
+
 Plain == {Basic, Chain, Keyed, Group, GroupScoped, GroupDeps, Multi, MultiTr, OutKN, OutKNSing, Alias1, Alias2,
-          Alias2Scoped, Diamond2, Optional, Inits, InitSing, Builtin, InstVal}
+          Alias2Scoped, Diamond2, Optional, Inits, InitSing, Builtin, InstVal} \cup CfgForms
 Defective == {Cycle2, CycleGroup, Captive, CaptiveGroup, MissingDep}
 
 Hows == {"err", "panic"}
